@@ -16,7 +16,8 @@ def run(ctx):
                     "into_owned / parse is dominated by len <= 255 (internal_new) - parse takes the length from a wire byte; R3 the "
                     "chunk size used to split text is a constant in 1..=254; R4 String::try_from(TXT) appends every string's bytes once, "
                     "in order; R5 in TXT::attributes and TXT::long_attributes every split at '=' is bounded to two pieces "
-                    "(splitn(2, ..) / split_once), every split at ';' is unbounded, and no other separator is used.")
+                    "(splitn(2, ..) / split_once), every split at ';' is unbounded, and no other separator is used; R6 TXT::try_from(attribute map) decides "
+                    "between `key` and `key=value` by matching on the Option itself - it never collapses None into a String first.")
     roots = []
     for q in ["simple_dns::TXT::attributes", "simple_dns::TXT::long_attributes", "simple_dns::<TXT as TryFrom<&str>>::try_from",
               "simple_dns::<TXT as TryFrom<HashMap<String, Option<String>>>>::try_from", "simple_dns::<String as TryFrom<TXT>>::try_from",
@@ -195,6 +196,36 @@ def run(ctx):
         report.floor("'=' splits in %s" % q.split("::")[-1], n_eq, 1)
         if want_semi:
             report.floor("';' splits in %s" % q.split("::")[-1], n_semi, 1)
+    # ---- R6 absent vs empty on the writing side
+    hm = prog.find("simple_dns::<TXT as TryFrom<HashMap<String, Option<String>>>>::try_from")
+    if hm is not None:
+        fam = [hm] + [x for x in prog.bodies.values() if x.kind == "Closure" and x.root == hm.id]
+        collapses = []
+        matches = 0
+        for x in fam:
+            for bi, t in mu.calls(x, r"^std::option::Option::<T>::(unwrap_or_default|unwrap_or|unwrap_or_else|map_or|map_or_else|unwrap|expect|"
+                                     r"is_some_and|is_none_or|filter|and_then|or|or_else|xor)$"):
+                targs = [x.ty(i)["s"] for i in t["callee"]["targs"]]
+                if targs and targs[0] in ("std::string::String", "&std::string::String", "&str"):
+                    collapses.append(t["sp"].get("sn") or t["callee"]["name"])
+            xdefs = mu.defs_of(x)
+            for bi, bl in enumerate(x.blocks):
+                t = bl["term"]
+                if bl["cleanup"] or t["t"] != "switch":
+                    continue
+                l = mu.op_local(t["discr"])
+                d = mu.single_def(xdefs, l) if l is not None else None
+                if d is not None and d[1] != "term" and d[2].get("k") == "discr" and \
+                        x.ty(d[2]["pl"]["t"])["s"] == "std::option::Option<std::string::String>":
+                    matches += 1
+        report.count()
+        if collapses or not matches:
+            viol(report, "C19-R6", hm, "absent-vs-empty", "TXT::try_from(attribute map) %s: an entry with an empty value (`key=`) and an entry "
+                 "without a value (`key`) are written alike, so reading the attributes back cannot tell them apart" % (
+                     ("passes the Option<String> value through `%s`, which turns None into a String" % collapses[0]) if collapses else
+                     "does not match on the Option<String> value"), collapses[0] if collapses else "no-match")
+        else:
+            report.nontriv("absent vs empty (writer)")
     report.assumptions += ["the attribute-map round trip (absent vs empty, first-wins) is value-level and not decided",
                            "the out-of-crate half of R2 is the privacy of CharacterString's field (pub(crate)), checked by the compiler"]
     return report.finish()
